@@ -37,6 +37,7 @@ func loadBaseline() map[string]bool {
 	m := map[string]bool{}
 	b, err := os.ReadFile("/verif/baseline/obligations.json")
 	if err != nil {
+		loadBaselineDir(m)
 		return m
 	}
 	var names map[string][]string
@@ -47,7 +48,25 @@ func loadBaseline() map[string]bool {
 			}
 		}
 	}
+	loadBaselineDir(m)
 	return m
+}
+
+// loadBaselineDir adds the per-property baseline files baseline/<id>.json (a list of names).
+func loadBaselineDir(m map[string]bool) {
+	files, _ := filepath.Glob("/verif/baseline/C*.json")
+	for _, f := range files {
+		b, err := os.ReadFile(f)
+		if err != nil {
+			continue
+		}
+		var l []string
+		if json.Unmarshal(b, &l) == nil {
+			for _, n := range l {
+				m[n] = true
+			}
+		}
+	}
 }
 
 type oblEvidence struct {
@@ -383,10 +402,16 @@ func updateBaselineFile(id string, obls []*Obl) {
 		}
 	}
 	sort.Strings(l)
-	names[id] = l
 	os.MkdirAll("/verif/baseline", 0o755)
-	b, _ := json.MarshalIndent(names, "", " ")
-	os.WriteFile("/verif/baseline/obligations.json", b, 0o644)
+	// one file per property (so that concurrent updates of different properties do not collide);
+	// an entry for the same property in the older combined file is dropped
+	b, _ := json.MarshalIndent(l, "", " ")
+	os.WriteFile("/verif/baseline/"+id+".json", b, 0o644)
+	if _, old := names[id]; old {
+		delete(names, id)
+		b, _ := json.MarshalIndent(names, "", " ")
+		os.WriteFile("/verif/baseline/obligations.json", b, 0o644)
+	}
 }
 
 func writeEvidence(id, tier string, seed int, spec *PropSpec, results []*UnitResult, obls []*Obl, wall float64, violations int, notes []string, knownLines []string) {
